@@ -272,7 +272,7 @@ theorem pngRowLoop_total (predictor bpp : Nat) (prev : Bytes) :
     unfold Pred.pngRowLoop
     by_cases hkb : k ≥ bpp
     · by_cases hb0 : bpp = 0
-      · simp only [hkb, if_true, hb0, hb]
+      · simp only [if_true, hb0, hb]
         obtain ⟨r, h1, h2⟩ := ih (k + 1) (acc ++ [x + Pred.predByte predictor x prev[k] prev[k]])
           (by simp [hacc]) (by omega)
         subst hb0
